@@ -48,11 +48,34 @@ def coef_sur(co: dict):
     return Derived(fn=_fn(co["fn"]), args=list(co["args"]))
 
 
-def value(v: dict):
+NUMTYPES = ("float", "int", "np.int64", "np.float32", "np.float64")
+
+
+def typed(x, rnd):
+    """A number as callers write it: the same value as a Python float / int or a numpy scalar (a seeded rendering
+    choice; integral values only for the integer types, float32 only where it is exact)."""
+    import numpy as np
+
+    x = float(x)
+    if rnd is None:
+        return x
+    t = rnd.choice(NUMTYPES)
+    if t == "int" and x == int(x):
+        return int(x)
+    if t == "np.int64" and x == int(x):
+        return np.int64(int(x))
+    if t == "np.float32" and float(np.float32(x)) == x:
+        return np.float32(x)
+    if t == "np.float64":
+        return np.float64(x)
+    return x
+
+
+def value(v: dict, rnd=None):
     from mxlpy.types import InitialAssignment
 
     if v["k"] == "num":
-        return float(v["v"])
+        return typed(v["v"], rnd)
     return InitialAssignment(fn=_fn(v["fn"]), args=list(v["args"]))
 
 
@@ -107,9 +130,9 @@ def build_model(c: dict, rnd: random.Random | None = None):
         steps += others
     for kind, n in steps:
         if kind == "var":
-            m.add_variable(n, value(c["init"][n]))
+            m.add_variable(n, value(c["init"][n], rnd))
         elif kind == "par":
-            m.add_parameter(n, value(c["pars"][n]))
+            m.add_parameter(n, value(c["pars"][n], rnd))
         elif kind == "der":
             m.add_derived(n, _fn(c["der"][n]["fn"]), args=list(c["der"][n]["args"]))
         elif kind == "rxn":
